@@ -2,9 +2,9 @@
    PARTIAL by nature: data races, concurrent map access, deadlocks and goroutine leaks live in the Go
    runtime and no executable Gallina model can exhibit them (they are exercised by the simulator's
    monitors and named in the evidence).  What is proved here: the task ledger (every task the model
-   accepts is answered exactly once, shutdown answers everything pending) and that the
-   assertions/out-of-range/nil-view outcomes of the handlers cannot occur from states satisfying the
-   node invariant (see no_failure_* below).  Proofs in Node/TaskFacts.v *)
+   accepts is answered exactly once, shutdown answers everything pending).  That no handler panics
+   (assertions, index/nil-view errors) is NOT a theorem: it is observed by the panic monitor on every
+   event the drivers execute.  Proofs in Node/TaskFacts.v *)
 From Coq Require Import List NArith ZArith Bool.
 From Verif Require Import Base.Bytes Codec.Messages Node.Types Node.Handlers Node.Leader Node.Snap Node.Step Node.Run Node.TaskFacts.
 Import ListNotations.
@@ -20,11 +20,22 @@ Definition submitted := TaskFacts.submitted.
    multiset, the tasks pending after it plus the ones it answered -- nothing is answered twice,
    nothing is dropped.
    [TaskFacts.fresh s ev]: the submitted ids are distinct and not pending in s; the event is
-   [admissible] (no restart of a process that holds tasks, no reserved id 0 for waitStable/transfer,
-   a changeConfig task with a non-zero id carries a configuration without membership actions) and
-   [enabled] (a leader event that submits a task is taken by a leader).  Each clause is justified by a
-   machine-checked counterexample (TaskFacts.cex_...), and TaskFacts.ex_history is a concrete history
-   of ten events, five tasks pending at once, that meets all of them. *)
+   [admissible] and [enabled] (a leader event that submits a task is taken by a leader).
+   [admissible s ev] excludes: a restart of a process that holds tasks; the reserved id 0 for
+   waitStable/transfer; and, for a changeConfig task LChangeConfig tid c, requires
+       tid = 0  \/  is_stable c = true  \/  TaskFacts.covered_change s c
+   where [covered_change s c] is: wf_config c (a configuration Go's types allow: distinct ids, fields in
+   range), leader_votes s (the leader is a voter unless a transfer is in progress),
+   c_index (st_latest s) <= st_lastidx s, and no_solo c (st_nid s) = true (no single membership action
+   of c -- demoting/removing the only other voter, removing a non-voter from a one-voter cluster --
+   leaves the leader as the only voter, i.e. the entry appended for an action cannot commit inside the
+   same call).  So a changeConfig task that promotes, demotes or removes nodes is covered whenever the
+   cluster keeps a second voter through each single action.  Not covered: the immediate-commit path
+   (TaskFacts.cex_change_config_solo: there the task is answered twice when the map-iteration oracle
+   o_order repeats an id; task_ledger quantifies over every oracle).  The other clauses are justified
+   by machine-checked counterexamples as well (TaskFacts.cex_...), and TaskFacts.ex_history (ten
+   events, five tasks pending at once) and TaskFacts.ex2_history (a changeConfig task whose Promote is
+   carried out in the step that accepts it) are concrete histories that meet all of them. *)
 Theorem task_ledger :
   forall opt s ev o s', model_event opt s ev = Done (o, s') ->
     TaskFacts.ledger_ok s -> TaskFacts.fresh s ev ->
@@ -66,3 +77,15 @@ Proof.
   split; [reflexivity|]. exact TaskFacts.ex_answered.
 Qed.
 Print Assumptions history_exists.
+
+(* ... also with a changeConfig task that carries a membership action: node 1, alone, learns of nodes 2
+   and 3 (task 10), promotes node 2 (task 11: the action is carried out at once, the task stays pending
+   with the configuration appended for it, Latest gets index 4 with node 2 a voter) and is answered
+   when that configuration commits *)
+Example history_with_action_exists :
+  TaskFacts.nrun_fresh (fresh_node 1 1) TaskFacts.ex2_trace TaskFacts.ex2_end /\
+  TaskFacts.answered TaskFacts.ex2_trace = [3; 10; 11] /\ pending TaskFacts.ex2_end = [] /\
+  pending (TaskFacts.ex2_after 5) = [11] /\ c_index (st_latest (TaskFacts.ex2_after 5)) = 4 /\
+  is_voter (st_latest (TaskFacts.ex2_after 5)) 2 = true.
+Proof. split; [exact TaskFacts.ex2_history | exact TaskFacts.ex2_answered]. Qed.
+Print Assumptions history_with_action_exists.
